@@ -55,4 +55,9 @@ theorem tie_no_wait_cycle (hsh : ∀ k, sh k < n) {rank : Key → Nat} (hr : Rea
     ¬ Relation.TransGen (waitsFor s) t t :=
   kl_no_wait_cycle tie_cfg_proved hsh hr t
 
+theorem tie_route_stable (hsh : ∀ k, sh k < n) (hr : (lts cfg n sh).Reach s)
+    {t : Tid} {k : Key} {o : ObjId} {m : Mode} (h : (k, o, m) ∈ refs (s.th t)) :
+    routedTable sh s (sh k) k = some o ∧ ∀ i, i ≠ sh k → routedTable sh s i k = none :=
+  kl_route_stable tie_cfg_proved hsh hr h
+
 end Nv.C02
